@@ -150,6 +150,13 @@ def run(ctx):
                     ctx.problem("monitor", "C04: the VAA the node published for its own observation does not hash to the digest the guardians signed (" + line + ")",
                                 "observed on the real handlers, history %s (%s)" % (h["id"], h.get("shape")), concrete=True,
                                 replay=P.replay_obj(h, line), key="C04:published-body-is-not-the-signed-body")
+                elif line.startswith("own observation broadcast with a signature that does not recover") and line not in seen:
+                    # "every honest guardian observing the same message signs the same 32 bytes": the signature the node gossips must be one
+                    # over the digest of the message it just observed (not one remembered for an earlier message with the same id)
+                    seen.add(line)
+                    ctx.problem("monitor", "C04: the node gossiped, for the digest of the message it observed, a signature that is not its signature over that digest (" + line + ")",
+                                "observed on the real handleMessage, history %s (%s)" % (h["id"], h.get("shape")), concrete=True,
+                                replay=P.replay_obj(h, line), key="C04:signature-not-over-the-observed-digest")
                 elif c == "C04" and line not in seen:
                     seen.add(line)
                     ctx.problem("monitor", line, "observed on the real handleMessage, history %s (%s)" % (h["id"], h.get("shape")), concrete=True,
